@@ -65,11 +65,11 @@ def select(ovs, prop, tier, only):
     return hs
 
 
-def run_group(scratch, crate, harnesses, cbmc_args, jobs, timeout, tag):
+def run_group(scratch, crate, harnesses, cbmc_args, jobs, timeout, tag, tdir_tag=None):
     """One cargo-kani invocation. Returns (json or None, log text, seconds, returncode)."""
     cwd = os.path.join(scratch, "core") if crate == "core" else scratch
     out_json = os.path.join(scratch, f"kani-{tag}.json")
-    tdir = os.path.join(scratch, f"target-{crate}")
+    tdir = os.path.join(scratch, f"target-{tdir_tag or crate}")
     cmd = ["cargo", "kani"] + KANI_FLAGS + ["--target-dir", tdir, "-j", str(jobs), "--output-format=terse",
                                             "--harness-timeout", f"{timeout}s", "--export-json", out_json]
     for h in harnesses:
@@ -94,6 +94,51 @@ def run_group(scratch, crate, harnesses, cbmc_args, jobs, timeout, tag):
         except Exception as e:  # noqa: BLE001
             text += f"\n[runner] cannot parse {out_json}: {e}\n"
     return data, text, dt, rc, " ".join(cmd)
+
+
+def codegen_only(scratch, tdir_tag, crate, harnesses):
+    cwd = os.path.join(scratch, "core") if crate == "core" else scratch
+    tdir = os.path.join(scratch, f"target-{tdir_tag}")
+    cmd = ["cargo", "kani"] + KANI_FLAGS + ["--target-dir", tdir, "--only-codegen"]
+    for h in harnesses:
+        cmd += ["--harness", h.name]
+    p = subprocess.run(cmd, cwd=cwd, env=ENV, stdout=subprocess.PIPE, stderr=subprocess.STDOUT, text=True, timeout=1800)
+    return p.returncode, p.stdout
+
+
+def loop_labels(scratch, tdir_tag, h):
+    """Resolve the //@harness unwindset="<regex>=N;..." annotation to CBMC loop labels by listing the
+    loops of the harness's goto binary (labels contain crate hashes, so they are looked up, not stored)."""
+    tdir = os.path.join(scratch, f"target-{tdir_tag}")
+    suffix = f"{len(h.name)}{h.name}.out"
+    cands = [f for f in glob.glob(os.path.join(tdir, "**", "*.out"), recursive=True)
+             if f.endswith(suffix) and not f.endswith(".symtab.out")]
+    if not cands:
+        return None, "goto binary not found"
+    p = subprocess.run(["goto-instrument", "--show-loops", cands[0]], stdout=subprocess.PIPE, stderr=subprocess.DEVNULL, text=True, timeout=600)
+    loops = []
+    cur = None
+    for ln in p.stdout.splitlines():
+        m = re.match(r"^Loop (\S+):$", ln)
+        if m:
+            cur = m.group(1)
+            continue
+        if cur and " function " in ln:
+            loops.append((cur, ln.split(" function ", 1)[1].strip()))
+            cur = None
+    pairs = []
+    notes = []
+    for item in h.unwindset.split(";"):
+        if not item.strip():
+            continue
+        rx, n = item.rsplit("=", 1)
+        hits = [lab for lab, fn in loops if re.search(rx, fn)]
+        if not hits:
+            notes.append(f"no loop matches {rx}")
+        pairs += [f"{lab}:{int(n)}" for lab in hits]
+    if notes:
+        return None, "; ".join(notes)
+    return ",".join(pairs), f"{len(pairs)} loops bounded individually"
 
 
 def short(name):
@@ -194,7 +239,7 @@ def run_native(scratch, crate, file_rel, harness_name, tests, timeout=600):
 def playback(scratch, h, timeout=300):
     """Phase 2 for a refuted harness: ask Kani for concrete tests and run them natively on the real code."""
     cwd = os.path.join(scratch, "core") if h.crate == "core" else scratch
-    tdir = os.path.join(scratch, f"target-{h.crate}")
+    tdir = os.path.join(scratch, f"target-{h.crate}-pb")
     cmd = ["cargo", "kani"] + KANI_FLAGS + ["-Z", "concrete-playback", "--concrete-playback=print", "--target-dir", tdir,
                                             "--harness", h.name, "--harness-timeout", f"{timeout}s"]
     if h.cbmc:
@@ -267,23 +312,80 @@ def main():
         log(f"[{prop}] woven {sum(wstats.values())} lines into {len(wstats)} files of a scratch copy; {len(hs)} harnesses, tier {tier}")
 
         groups = {}
+        special = [h for h in hs if h.unwindset]
         for h in hs:
-            groups.setdefault((h.crate, h.cbmc), []).append(h)
+            if not h.unwindset:
+                groups.setdefault((h.crate, h.cbmc), []).append(h)
         results = {}
         cmds = []
         logs = []
-        for gi, ((crate, cbmc), ghs) in enumerate(sorted(groups.items())):
+        from concurrent.futures import ThreadPoolExecutor
+        n_groups = len(groups) + (1 if special else 0)
+        per_group_jobs = max(2, args.jobs // max(1, n_groups))
+
+        def run_special():
+            # harnesses with per-loop unwind bounds: one codegen for all of them, then one invocation each
+            out = []
+            for crate in sorted({h.crate for h in special}):
+                sh = [h for h in special if h.crate == crate]
+                rc0, out0 = codegen_only(scratch, crate + "-s", crate, sh)
+                if rc0 != 0:
+                    out.append((None, None, out0, 0, 2, "", f"codegen for per-loop-unwind harnesses of {crate} failed"))
+                    continue
+
+                def one(h):
+                    us, note = loop_labels(scratch, crate + "-s", h)
+                    if us is None:
+                        return (h, None, f"[runner] {h.name}: {note}", 0, 2, "", f"{h.name}: {note}")
+                    tmo = h.timeout or DEFAULT_TIMEOUT[tier]
+                    data, text, dt, rc, cmd = run_group(scratch, crate, [h], (h.cbmc + " " if h.cbmc else "") + "--unwindset " + us, 1, tmo,
+                                                        f"{crate}-{h.name}", tdir_tag=crate + "-s")
+                    return (h, data, text, dt, rc, cmd, None)
+                with ThreadPoolExecutor(max_workers=per_group_jobs) as ex:
+                    out += list(ex.map(one, sh))
+            return ("special", out)
+
+        def run_normal(item):
+            gi, ((crate, cbmc), ghs) = item
             tmo = max([h.timeout for h in ghs] + [0]) or DEFAULT_TIMEOUT[tier]
-            data, text, dt, rc, cmd = run_group(scratch, crate, ghs, cbmc, args.jobs, tmo, f"{crate}-{gi}")
-            cmds.append(cmd)
-            logs.append(text)
-            r = digest(data, text)
-            log(f"[{prop}] group {crate}/{gi}: {len(ghs)} harnesses, {dt:.0f}s, rc={rc}, results for {len(r)}")
-            if not r:
-                tail = "\n".join(text.splitlines()[-60:])
-                log(tail)
-                undecided.append(f"group {crate}/{gi}: no results (build error or crash)")
-            results.update(r)
+            data, text, dt, rc, cmd = run_group(scratch, crate, ghs, cbmc, per_group_jobs, tmo, f"{crate}-{gi}", tdir_tag=f"{crate}-{gi}")
+            return ("normal", (gi, crate, ghs, data, text, dt, rc, cmd))
+
+        tasks = []
+        with ThreadPoolExecutor(max_workers=max(1, n_groups)) as ex:
+            futs = []
+            if special:
+                futs.append(ex.submit(run_special))
+            for item in enumerate(sorted(groups.items())):
+                futs.append(ex.submit(run_normal, item))
+            for f in futs:
+                tasks.append(f.result())
+        for kind, payload in tasks:
+            if kind == "special":
+                for h, data, text, dt, rc, cmd, err in payload:
+                    if cmd:
+                        cmds.append(cmd)
+                    logs.append(text)
+                    if err:
+                        undecided.append(err)
+                        log("\n".join(text.splitlines()[-25:]))
+                        continue
+                    r = digest(data, text)
+                    log(f"[{prop}] {h.name} (per-loop unwind): {dt:.0f}s, rc={rc}")
+                    if not r:
+                        log("\n".join(text.splitlines()[-15:]))
+                    results.update(r)
+            else:
+                gi, crate, ghs, data, text, dt, rc, cmd = payload
+                cmds.append(cmd)
+                logs.append(text)
+                r = digest(data, text)
+                log(f"[{prop}] group {crate}/{gi}: {len(ghs)} harnesses, {dt:.0f}s, rc={rc}, results for {len(r)}")
+                if not r:
+                    tail = "\n".join(text.splitlines()[-60:])
+                    log(tail)
+                    undecided.append(f"group {crate}/{gi}: no results (build error or crash)")
+                results.update(r)
 
         violations = []   # (harness, result)
         known = []
